@@ -333,7 +333,7 @@ _C09_QUICK_PAIRS = {("StringTag", "Int64"), ("Int8", "Int32"), ("Int8", "Int16")
 PROPERTIES["C09"] = {
     "harnesses": [MH("c09_build_" + n, inputs="builder scenario %s: file contents and modification times symbolic" % n, timeout=900,
                      bounds="PackageBuilder .. build() from MIR; both emitted headers against the structural validator; rpmlib(FileCaps) declared when capabilities are present")
-                  for n in ("empty", "files2", "scriptlets", "scriptlets_plain", "deps", "caps_first", "caps_last") + tuple("dep_" + k for k in ("requires", "provides", "obsoletes", "conflicts", "recommends", "suggests", "enhances", "supplements"))]
+                  for n in ("empty", "files2", "utf8name", "scriptlets", "scriptlets_plain", "deps", "caps_first", "caps_last") + tuple("dep_" + k for k in ("requires", "provides", "obsoletes", "conflicts", "recommends", "suggests", "enhances", "supplements"))]
     + [MH("c09_one_" + a, inputs="one record of type %s, tag and contents symbolic" % a, bounds="Header::from_entries with one record", timeout=600) for a in _C09V]
     + [MH("c09_pair_%s_%s" % (a, b), tier=("quick" if (a, b) in _C09_QUICK_PAIRS else "thorough"), timeout=900,
           inputs="two records of types %s and %s, tags symbolic (distinct), contents symbolic" % (a, b), bounds="Header::from_entries with two records") for a in _C09V for b in _C09V]
